@@ -46,6 +46,61 @@ def _die_with_parent():
         pass
 
 
+def forked(fn, arg, timeout: float = 300.0):
+    """Run fn(arg) in a forked child of the calling process and bring the (picklable) result back:
+    ("ok", result) | ("error", traceback) | ("crash", exitcode) | ("hang", None).
+    For cases that are known to leave a C extension in a state that endangers whatever runs next in the same
+    process (pyppmd's helper thread after a failed decode): the caller stays clean whatever happens in the child."""
+    import pickle
+
+    r, w = os.pipe()
+    pid = os.fork()
+    if pid == 0:
+        code = 0
+        try:
+            os.close(r)
+            _die_with_parent()
+            signal.setitimer(signal.ITIMER_REAL, 0)
+            try:
+                payload = pickle.dumps(("ok", fn(arg)))
+            except BaseException as e:  # noqa
+                payload = pickle.dumps(("error", "".join(traceback.format_exception(type(e), e, e.__traceback__))[-4000:]))
+            with os.fdopen(w, "wb") as f:
+                f.write(payload)
+        except BaseException:  # noqa
+            code = 3
+        finally:
+            os._exit(code)
+    os.close(w)
+    buf = bytearray()
+    deadline = time.time() + timeout
+    import select
+
+    with os.fdopen(r, "rb", buffering=0) as f:
+        while True:
+            left = deadline - time.time()
+            if left <= 0:
+                try:
+                    os.kill(pid, signal.SIGKILL)
+                except OSError:
+                    pass
+                os.waitpid(pid, 0)
+                return ("hang", None)
+            ready, _, _ = select.select([f], [], [], min(left, 1.0))
+            if ready:
+                chunk = f.read(65536)
+                if not chunk:
+                    break
+                buf += chunk
+    _, status = os.waitpid(pid, 0)
+    if buf:
+        try:
+            return pickle.loads(bytes(buf))
+        except Exception:
+            pass
+    return ("crash", -os.WTERMSIG(status) if os.WIFSIGNALED(status) else os.WEXITSTATUS(status))
+
+
 def _worker_main(conn, wdir: str, nice: int):
     _die_with_parent()
     os.makedirs(wdir, exist_ok=True)
